@@ -9,9 +9,11 @@ namespace SMV
 /-! ### typestate.rs -/
 
 /-- `generate_constructor`. -/
-def genCtor (m : Machine) : Ctor :=
+def genCtor (m : Machine) (state : Name) : Ctor :=
   { ctxTy := m.context,
-    slots := m.storage.map fun spec => { field := spec.field, init := none } }
+    slots := m.storage.map fun spec =>
+      if spec.stateName = state then { field := spec.field, init := some spec.ty }
+      else { field := spec.field, init := none } }
 
 /-- guard check (the `for guard in &edge.guards` loop body). -/
 def genGuardCheck (isAsync : Bool) (edge : Edge) (g : Name) : Check :=
@@ -86,7 +88,7 @@ def genMethod (m : Machine) (edge : Edge) : Method :=
 /-- one iteration of the `for state in &machine.states` loop of `generate_state_impls`. -/
 def genStateImpl (m : Machine) (state : Name) : Item :=
   .stateImpl m.name m.context state
-    (if state = m.initial then some (genCtor m) else none)
+    (if state = m.initial then some (genCtor m state) else none)
     ((m.outgoing state).map (genMethod m))
 
 /-- `generate_storage_accessors`: `__state_data_x` ↦ `state_data_x`, `state_data_x_mut`.
@@ -170,16 +172,16 @@ def genArm (isAsync : Bool) (ev : Event) (eventPascal eventMethod : Name) (sourc
   if ev.payload.isSome then
     if isAsync then
       { src := source, variant := eventPascal, bindsPayload := true, method := eventMethod,
-        passPayload := true, await := true, okVariant := edge.target, errVariant := source }
+        passPayload := true, await := true, okVariant := edge.target, errVariant := source, errFrom := source }
     else
       { src := source, variant := eventPascal, bindsPayload := true, method := eventMethod,
-        passPayload := true, await := false, okVariant := edge.target, errVariant := source }
+        passPayload := true, await := false, okVariant := edge.target, errVariant := source, errFrom := source }
   else if isAsync then
     { src := source, variant := eventPascal, bindsPayload := false, method := eventMethod,
-      passPayload := false, await := true, okVariant := edge.target, errVariant := source }
+      passPayload := false, await := true, okVariant := edge.target, errVariant := source, errFrom := source }
   else
     { src := source, variant := eventPascal, bindsPayload := false, method := eventMethod,
-      passPayload := false, await := false, okVariant := edge.target, errVariant := source }
+      passPayload := false, await := false, okVariant := edge.target, errVariant := source, errFrom := source }
 
 /-- the `for event … for state … for edge … if edge.event == *event_snake` loops. -/
 def genArms (m : Machine) : List Arm :=
